@@ -223,7 +223,18 @@ func main() {
 				JSON: map[string]interface{}{"op": "parse_revision", "b": lib.HexBytes(b), "out": out}, Outcomes: []string{oc}})
 		case 7: // prefix enclosure computed with the real functions
 			p := genAlphaKey(rnd)
+			if rnd.Chance(1, 3) { // prefixes with a 0xff tail: PrefixEnd must strip it
+				p = append(p, bytes.Repeat([]byte{0xff}, 1+rnd.Intn(2))...)
+			}
 			k := related(rnd, p)
+			if rnd.Chance(1, 2) { // keys around the true end of the prefix interval
+				stem := bytes.TrimRight(p, "\xff")
+				if len(stem) > 0 {
+					stem = exact(stem)
+					stem[len(stem)-1]++
+					k = append(stem, [][]byte{{}, {'/', 'x'}, {0xfe}, {0xff}, {37}}[rnd.Intn(5)]...)
+				}
+			}
 			r := genRev(rnd)
 			lo, hi := cd.EncodeObjectKey(p, 0), cd.EncodeObjectKey(backend.PrefixEnd(exact(p)), 0)
 			in := inBounds(lo, hi, cd.EncodeObjectKey(k, r))
